@@ -69,6 +69,8 @@ func runC01(c *an.Ctx) {
 	r0113(c, "R01.13")
 	c.Min("R01.13", 40)
 	r0114(c, "R01.14")
+	r117as(c, "R01.15") // Add/Update never extend the caller's option list in place: a later call with the rest of that list would run with options it was not given (shared with R11.7)
+	c.Min("R01.15", 1)
 	c.Min("R01.14", 4)
 	c.Min("R01.12", 20)
 	c.Min("R01.11", 1)
@@ -1717,6 +1719,7 @@ func r0114(c *an.Ctx, rule string) {
 	r065as(sub, "R05.6")
 	r057(sub)          // extra update paths only narrow a mask that is there: a nil mask stays "all fields"
 	r058(sub, "R05.8") // masks reach fmutils normalised (reset/update masks naming a path and one it covers)
+	r068(sub, "R06.8") // an empty mask is not "no mask"
 	n := 0
 	for _, o := range sub.Obls {
 		o.Key = rule + "|" + o.Construct
